@@ -48,6 +48,10 @@ pub enum Op {
     /// C09: the stack made by the most recent init_stack is put under `mask`, a PUSH / CALL / POP / RET is
     /// executed in its middle, and the mask is lifted again
     OnInitStack { mask: u32, kind: String },
+    /// C09: `mov eax, imm32` whose first `first` bytes end an executable area at `at` and whose other bytes
+    /// start the area directly behind it, which is under `mask`: unless that area may be executed too, the
+    /// instruction is not in executable memory and must not run
+    FetchStraddle { at: u64, first: u64, mask: u32 },
     /// C07: the machine runs its last NOP and finishes; the register file stays usable ("the state may be
     /// inspected and changed after execution")
     Finish,
@@ -915,6 +919,52 @@ impl<'a> Ex<'a> {
         self.prot(start, old_prot);
     }
 
+    fn fetch_straddle(&mut self, at: u64, first: u64, mask: u32) {
+        if self.overlapping || !self.m.free(at, 48, None) || first == 0 || first >= 5 {
+            self.ctx.probe("fetch_straddle_skipped");
+            return;
+        }
+        let insn = [0xb8u8, 0x11, 0x22, 0x33, 0x44];
+        let mut a = vec![0x90u8; 32];
+        a[32 - first as usize..].copy_from_slice(&insn[..first as usize]);
+        let mut b = vec![0x90u8; 16];
+        b[..5 - first as usize].copy_from_slice(&insn[first as usize..]);
+        self.create("init_area", at, a, false, false);
+        self.create("init_area", at + 32, b, false, false);
+        self.prot(at, 5);
+        self.prot(at + 32, mask);
+        let rip = at + 32 - first;
+        let _ = self.ax.reg_write_64(SupportedRegister::RIP, rip);
+        let _ = self.ax.reg_write_64(SupportedRegister::RAX, 0x1111_2222_3333_4444);
+        let before = self.ax.verif_areas();
+        let out = do_step(&mut self.ax);
+        self.ctx.guest_steps += 1;
+        let rax = self.ax.reg_read_64(SupportedRegister::RAX).unwrap_or(0);
+        let oc = match &out {
+            StepOut::Ok(_) => "ok".to_string(),
+            StepOut::Err(_) => "err".to_string(),
+            StepOut::Panic(p) => format!("panic:{}", p.class()),
+        };
+        self.ctx.event(&format!("fetch_straddle:{}:{oc}", if mask & 4 != 0 { "next_executable" } else { "next_denied" }), &format!("{first} {mask}"));
+        self.note_access_fault("denied", 1);
+        if let StepOut::Panic(p) = &out {
+            self.ctx.dev("C09", format!("C09|fetch_straddle|{oc}"), format!("fetching an instruction that straddles two areas panicked: {} at {}", p.msg, p.loc));
+        } else if mask & 4 == 0 {
+            // (if the next area is executable too the CPU would run the instruction; ax fetches from one area only -
+            // no verdict there)
+            if matches!(out, StepOut::Ok(_)) || rax != 0x1111_2222_3333_4444 {
+                self.ctx.dev("C09", "C09|fetch_straddle|next_area_denied|want=err|got=ok".into(), format!("mov eax, imm32 with {first} byte(s) at the end of an executable area and the rest in an area with rights {mask} was executed (RAX = {rax:#x}): {out:?}").chars().take(400).collect());
+            }
+            if self.ax.verif_areas().iter().zip(before.iter()).any(|(x, y)| x.data != y.data) {
+                self.ctx.dev("C09", "C09|fetch_straddle|failed_access_changed_memory".into(), "a refused fetch changed memory".into());
+            }
+        }
+        let o = Model::from_ax(&self.ax);
+        self.m.gpr = o.gpr;
+        self.m.rip = o.rip;
+        self.prot(at + 32, 3);
+    }
+
     fn on_init_stack(&mut self, mask: u32, kind: &str) {
         let (start, len) = match self.last_init_stack {
             Some(x) if x.1 >= 64 && self.m.areas.iter().filter(|a| a.start == x.0).count() == 1 => x,
@@ -1427,6 +1477,7 @@ pub fn run(_prop: &str, sc: &Sc, ctx: &mut Ctx) {
             Op::CodePatch { start, off, imm1, imm2, guest } => ex.code_patch(*start, *off, *imm1, *imm2, *guest),
             Op::Finish => ex.finish(),
             Op::OnInitStack { mask, kind } => ex.on_init_stack(*mask, kind),
+            Op::FetchStraddle { at, first, mask } => ex.fetch_straddle(*at, *first, *mask),
         }
         if ex.ax.verif_finished() && !ex.finished_on_purpose {
             // a template ran into the end of the code: cannot happen by construction
